@@ -707,13 +707,26 @@ def construct(I, cls, args, kwargs):
     hook = I.registry.get('construct:' + c.__module__ + '.' + c.__qualname__)
     if hook is None and c.__name__ == 'cls':
         hook = None
-    if hook is None:
+    if hook is None and '__new__' not in c.__dict__:
         for k in c.__mro__:
             hook = I.registry.get('construct:' + k.__module__ + '.' + k.__qualname__)
             if hook is not None:
                 break
     if hook is not None:
         return hook(I, cls, args, kwargs)
+    if c.__module__.startswith('serif') and not issubclass(c, BaseException):
+        # generic protocol for a modelled serif class without a constructor contract:
+        # type.__call__ = __new__ (allocation) then __init__ on the new instance, both real bodies
+        import serif.vector
+        o = VObj(c, tag='row' if c.__name__ == 'Row' else None)
+        init = None
+        for k in c.__mro__:
+            if '__init__' in k.__dict__:
+                init = k.__dict__['__init__']
+                break
+        if init is not None and init is not object.__init__:
+            I.call(I.lift(init), [o] + list(args), kwargs)
+        return o
     raise Unsupported(f'construction of {c.__name__}')
 
 
